@@ -537,6 +537,11 @@ theorem step_spec (b : RB) (W : List Nat) (hr : Rep b W) (o : Op) (hok : OkStep 
     simp only [step, acc1, del1, List.append_nil]
     refine ⟨h1, h2, by omega, rfl, false, ?_, fun h => absurd rfl (h k)⟩
     rw [keepMask_false]
+  | reopen =>
+    -- the reader handle is replaced; both pointers live in the shared description
+    simp only [step, acc1, del1, List.append_nil]
+    refine ⟨hr, Nat.le_refl _, by omega, trivial, true, ?_, fun _ => rfl⟩
+    simp [keepMask]
 
 /-- the history invariant, from an arbitrary represented state -/
 theorem run_inv (ops : List Op) : ∀ (b : RB) (W : List Nat), Rep b W → OkHist b ops →
